@@ -41,13 +41,13 @@ use lc3_ensemble::asm::ObjectFile;
 pub fn observe(o: &ObjectFile) -> Linked {
     let mut out = Linked::default();
     for (a, w) in o.addr_iter() { out.image.insert(a, w); }
-    if let Some(s) = o.symbol_table() { for (n, a, e) in s.label_iter() { out.labels.insert(n.to_ascii_uppercase(), (a, e)); } }
+    if let Some(s) = o.symbol_table() { for (n, a, e) in s.label_iter() { out.labels.insert(n.to_uppercase(), (a, e)); } }
     let text = TextFormat::serialize(o);
     let mut in_sec = false;
     for line in text.lines() {
         if line.starts_with('.') { in_sec = line.trim() == ".LINKER_INFO"; continue; }
         if !in_sec || line.trim().is_empty() || line.starts_with("ADDR") { continue; }
-        if let Some((a, l)) = line.split_once(" | ") { if let Ok(a) = u16::from_str_radix(a.trim(), 16) { out.relocs.insert(a, l.trim().to_ascii_uppercase()); } }
+        if let Some((a, l)) = line.split_once(" | ") { if let Ok(a) = u16::from_str_radix(a.trim(), 16) { out.relocs.insert(a, l.trim().to_uppercase()); } }
     }
     out
 }
